@@ -795,6 +795,11 @@ func (c *Conn) readRecordOrCCS(expectChangeCipherSpec bool) error {
 				}
 				continue
 			}
+			// 服务端等待 ChangeCipherSpec 期间（会话重用：服务端的 flight 丢失）收到的明文 ClientHello
+			// 是客户端的超时重传，不是协议错误：忽略它，由服务端自己的重传定时器重发 flight。
+			if expectChangeCipherSpec && !c.isClient && epoch == 0 && len(data) > 0 && data[0] == typeClientHello {
+				continue
+			}
 			if len(data) == 0 || expectChangeCipherSpec {
 				return c.in.setErrorLocked(c.sendAlert(alertUnexpectedMessage))
 			}
